@@ -351,6 +351,9 @@ def rule_hygiene(ck, repo, R, pid, extra_modules=()):
             L.lint_substring_membership(ck, R, m, qual, fn, classes.get(id(fn)))
             counts['slice truncations'] += L.lint_slice_after_truncation(ck, R, m, qual, fn)
             counts['try around loop'] += L.lint_swallowing_try_around_loop(ck, R, m, qual, fn)
+    counts['view signatures'] = 0
+    for m in mods:
+        counts['view signatures'] += L.lint_view_signature(ck, R, m, None)
     for k_, v_ in counts.items():
         ck.count(f'{R}: {k_}', v_)
     ck.ok(R, 'parameters', f'{n_par} parameters read ({len(ALLOWED_PARAMS)} frozen exceptions)')
